@@ -1,9 +1,134 @@
-import Echse.Model.Instant
+/-
+  C08 — calendar-instant arithmetic (`echs_instant_fixup`, `_diff`, `_add`, the ordering
+  predicates, and the epoch conversions) agrees with the calendar specification
+  `Echse.Spec.Cal` on normal instants of the years 1901..2099.
+  Statements only; helper lemmas live in Echse/Lemmas/Instant*.lean.
+-/
+import Echse.Lemmas.Instant4
 namespace C08
-open Echse.Instant
+open Echse.Instant Echse.Spec.Cal
 
-/-- smoke (replaced by the real statements below as they are proved) -/
-theorem add_one_day_over_leap :
-    add ⟨2020, 2, 28, 10, 30, 0, 0⟩ 86400000 = ⟨2020, 2, 29, 10, 30, 0, 0⟩ := by decide
+/-! ### 1. `diff` -/
+
+/-- `diff` is the difference of the points in time (milliseconds). -/
+theorem diff_spec (a b : Inst) (ha : Normal a) (hb : Normal b) (ra : InRange a) (rb : InRange b) :
+    diff a b = absMs a - absMs b := by
+  obtain ⟨⟨a1, a2, -, -⟩, a5, a6, a7, a8⟩ := ha
+  obtain ⟨⟨b1, b2, -, -⟩, b5, b6, b7, b8⟩ := hb
+  rw [diff_general a b ra rb a1 a2 b1 b2 _ rfl (by omega)]
+  simp only [absMs, msPerDay]
+  omega
+
+/-- second resolution -/
+theorem diff_spec_sec (a b : Inst) (ha : NormalSec a) (hb : NormalSec b) (ra : InRange a) (rb : InRange b) :
+    diff a b = (absSec a - absSec b) * 1000 := by
+  obtain ⟨⟨a1, a2, -, -⟩, a5, a6, a7, a8⟩ := ha
+  obtain ⟨⟨b1, b2, -, -⟩, b5, b6, b7, b8⟩ := hb
+  rw [diff_general a b ra rb a1 a2 b1 b2 _ rfl (by omega)]
+  simp only [absSec]
+  omega
+
+/-- all-day instants (the unused fields M, S, ms agree, e.g. are all zero) -/
+theorem diff_spec_day (a b : Inst) (ha : NormalDay a) (hb : NormalDay b) (ra : InRange a) (rb : InRange b)
+    (hM : a.M = b.M) (hS : a.S = b.S) (hms : a.ms = b.ms) :
+    diff a b = (days a.y a.m a.d - days b.y b.m b.d) * 86400000 := by
+  obtain ⟨⟨a1, a2, -, -⟩, a5⟩ := ha
+  obtain ⟨⟨b1, b2, -, -⟩, b5⟩ := hb
+  rw [diff_general a b ra rb a1 a2 b1 b2 _ rfl (by omega)]
+  omega
+
+/-! ### 2. `add` -/
+
+/-- `add` moves a normal instant by `δ` milliseconds (this includes that the fuel of the
+month loops in `addDays` suffices). -/
+theorem add_spec (b : Inst) (δ : Int) (hb : Normal b) (rb : InRange b)
+    (hlo : absMs ⟨1901,1,1,0,0,0,0⟩ ≤ absMs b + δ) (hhi : absMs b + δ < absMs ⟨2100,1,1,0,0,0,0⟩) :
+    Normal (add b δ) ∧ InRange (add b δ) ∧ absMs (add b δ) = absMs b + δ :=
+  Echse.Instant.add_spec b δ hb rb hlo hhi
+
+/-- all-day: `k` days move the date by `k` days, H stays `allDay`, the other fields stay. -/
+theorem add_spec_day (b : Inst) (k : Int) (hb : NormalDay b) (rb : InRange b)
+    (hlo : days 1901 1 1 ≤ days b.y b.m b.d + k) (hhi : days b.y b.m b.d + k < days 2100 1 1) :
+    NormalDay (add b (k * 86400000)) ∧ InRange (add b (k * 86400000)) ∧
+    days (add b (k * 86400000)).y (add b (k * 86400000)).m (add b (k * 86400000)).d = days b.y b.m b.d + k ∧
+    (add b (k * 86400000)).M = b.M ∧ (add b (k * 86400000)).S = b.S ∧ (add b (k * 86400000)).ms = b.ms := by
+  have e : (k * 86400000).tdiv 86400000 = k := Int.mul_tdiv_cancel k (by decide)
+  have := Echse.Instant.add_spec_day b (k * 86400000) hb rb (by rw [e]; exact hlo) (by rw [e]; exact hhi)
+  rw [e] at this
+  exact this
+
+/-- all-day, any `δ`: the date moves by `δ / 86400000` days (C division, truncating). -/
+theorem add_spec_day' (b : Inst) (δ : Int) (hb : NormalDay b) (rb : InRange b)
+    (hlo : days 1901 1 1 ≤ days b.y b.m b.d + δ.tdiv 86400000)
+    (hhi : days b.y b.m b.d + δ.tdiv 86400000 < days 2100 1 1) :
+    NormalDay (add b δ) ∧ InRange (add b δ) ∧
+    days (add b δ).y (add b δ).m (add b δ).d = days b.y b.m b.d + δ.tdiv 86400000 ∧
+    (add b δ).M = b.M ∧ (add b δ).S = b.S ∧ (add b δ).ms = b.ms :=
+  Echse.Instant.add_spec_day b δ hb rb hlo hhi
+
+/-- second resolution: `k` seconds -/
+theorem add_spec_sec (b : Inst) (k : Int) (hb : NormalSec b) (rb : InRange b)
+    (hlo : days 1901 1 1 * 86400 ≤ absSec b + k) (hhi : absSec b + k < days 2100 1 1 * 86400) :
+    NormalSec (add b (k * 1000)) ∧ InRange (add b (k * 1000)) ∧ absSec (add b (k * 1000)) = absSec b + k := by
+  have e : (k * 1000).tdiv 1000 = k := Int.mul_tdiv_cancel k (by decide)
+  have := Echse.Instant.add_spec_sec b (k * 1000) hb rb (by rw [e]; exact hlo) (by rw [e]; exact hhi)
+  rw [e] at this
+  exact this
+
+/-- second resolution, any `δ`: the sub-second part of `δ` is dropped (truncating). -/
+theorem add_spec_sec' (b : Inst) (δ : Int) (hb : NormalSec b) (rb : InRange b)
+    (hlo : days 1901 1 1 * 86400 ≤ absSec b + δ.tdiv 1000) (hhi : absSec b + δ.tdiv 1000 < days 2100 1 1 * 86400) :
+    NormalSec (add b δ) ∧ InRange (add b δ) ∧ absSec (add b δ) = absSec b + δ.tdiv 1000 :=
+  Echse.Instant.add_spec_sec b δ hb rb hlo hhi
+
+/-! ### 3. `add` and `diff` are inverse to each other -/
+
+theorem absMs_injective (a b : Inst) (ha : Normal a) (hb : Normal b) (h : absMs a = absMs b) : a = b :=
+  absMs_inj a b ha hb h
+
+theorem add_diff (a b : Inst) (ha : Normal a) (hb : Normal b) (ra : InRange a) (rb : InRange b) :
+    add b (diff a b) = a := by
+  have hd := diff_spec a b ha hb ra rb
+  obtain ⟨l, u⟩ := absMs_bounds a ha ra
+  obtain ⟨n, -, e⟩ := add_spec b (diff a b) hb rb (by rw [hd]; omega) (by rw [hd]; omega)
+  exact absMs_inj _ _ n ha (by rw [e, hd]; omega)
+
+theorem diff_add (b : Inst) (δ : Int) (hb : Normal b) (rb : InRange b)
+    (hlo : absMs ⟨1901,1,1,0,0,0,0⟩ ≤ absMs b + δ) (hhi : absMs b + δ < absMs ⟨2100,1,1,0,0,0,0⟩) :
+    diff (add b δ) b = δ := by
+  obtain ⟨n, r, e⟩ := add_spec b δ hb rb hlo hhi
+  rw [diff_spec _ _ n hb r rb, e]; omega
+
+/-- the same for second resolution -/
+theorem add_diff_sec (a b : Inst) (ha : NormalSec a) (hb : NormalSec b) (ra : InRange a) (rb : InRange b) :
+    add b (diff a b) = a := by
+  have hd := diff_spec_sec a b ha hb ra rb
+  obtain ⟨l, u⟩ := absSec_bounds a ha ra
+  have e : (diff a b).tdiv 1000 = absSec a - absSec b := by rw [hd]; exact Int.mul_tdiv_cancel _ (by decide)
+  obtain ⟨n, -, e'⟩ := Echse.Instant.add_spec_sec b (diff a b) hb rb (by rw [e]; omega) (by rw [e]; omega)
+  exact absSec_inj _ _ n ha (by rw [e', e]; omega)
+
+/-! ### 4. `fixup` -/
+
+/-- an overflowed timed instant denotes the same point in time after `fixup`, counting the
+overflowed fields on from the first of the (possibly overflowed) month. -/
+theorem fixup_spec (e : Inst) (hm1 : 1 ≤ e.m) (hm2 : e.m ≤ 36) (hd1 : 1 ≤ e.d) (hd2 : e.d ≤ 245)
+    (hH : e.H ≤ 250) (hM : e.M ≤ 254) (hS : e.S ≤ 62) (hms : e.ms ≤ 1022) (hy1 : 1901 ≤ e.y) (hy2 : e.y ≤ 2095) :
+    Normal (fixup e) ∧
+    absMs (fixup e) = days (e.y + (e.m - 1) / 12) ((e.m - 1) % 12 + 1) 1 * 86400000 +
+      ((e.d : Int) - 1) * 86400000 + (((e.H : Int) * 60 + e.M) * 60 + e.S) * 1000 + e.ms := by
+  have := fixup_general e (by unfold allDay; omega) (by unfold allSec; omega) hm1 hy1 hd1
+    (by omega) (by omega) (by omega) (by omega) (mfirst_lt _ _ _ (by omega) (by omega))
+  exact ⟨this.1, this.2.2⟩
+
+theorem fixup_inRange (e : Inst) (hm1 : 1 ≤ e.m) (hm2 : e.m ≤ 36) (hd1 : 1 ≤ e.d) (hd2 : e.d ≤ 245)
+    (hH : e.H ≤ 250) (hM : e.M ≤ 254) (hS : e.S ≤ 62) (hms : e.ms ≤ 1022) (hy1 : 1901 ≤ e.y) (hy2 : e.y ≤ 2095) :
+    InRange (fixup e) :=
+  (fixup_general e (by unfold allDay; omega) (by unfold allSec; omega) hm1 hy1 hd1
+    (by omega) (by omega) (by omega) (by omega) (mfirst_lt _ _ _ (by omega) (by omega))).2.1
+
+theorem fixup_idem (e : Inst) (h : Normal e) : fixup e = e := Echse.Instant.fixup_idem e h
+theorem fixup_idem_sec (e : Inst) (h : NormalSec e) : fixup e = e := Echse.Instant.fixup_idem_sec e h
+theorem fixup_idem_day (e : Inst) (h : NormalDay e) : fixup e = e := Echse.Instant.fixup_idem_day e h
 
 end C08
